@@ -113,3 +113,32 @@ def binding_selftest(ctx, module, cfg, tpath, mutate, label="selftest", env=None
         ctx.stage("selftest", mutation=desc, rejected_at=res["matched"] + 1)
         return desc
     raise ToolError("binding self-test: no run suitable for mutation")
+
+
+def strict_pass(ctx, cfg, tpath, label, max_events=None):
+    """Implementation-shaped (strict) validation of an already accepted trace: representation, storage order,
+    cached counters and the exact peer lists (random offsets inferred by TLC).  A rejection is model drift -
+    recorded in the evidence, never a verdict."""
+    if max_events is not None:
+        # quick tier: a prefix of whole runs
+        runs = split_runs(tpath)
+        part = ctx.path("strict_%s_prefix.ndjson" % label)
+        n = 0
+        with open(part, "w") as f:
+            for r in runs:
+                if n > 0 and n + len(r) > max_events:
+                    break
+                f.writelines(r)
+                n += len(r)
+        tpath = part
+    res = validate_trace(ctx, "SwarmStrict_Trace", cfg, tpath, name="strict_" + label)
+    if res["accepted"]:
+        ctx.stage("strict:" + label, events=res["total"], accepted=True)
+        ctx.coverage.setdefault("strict_pass", {})[label] = {"events": res["total"], "accepted": True}
+        return True
+    ctx.model_drift = {"label": label, "first_mismatch_index": res["matched"] + 1,
+                       "event": json.dumps(res["event"])[:600]}
+    ctx.coverage.setdefault("strict_pass", {})[label] = {"events": res["total"], "accepted": False}
+    log("MODEL-DRIFT (no verdict): %s no longer matches the implementation-shaped model at event %d"
+        % (label, res["matched"] + 1))
+    return False
